@@ -12,7 +12,7 @@ WEIGHTS = {
     "el.name=": 6, "el.set": 6, "el.del": 2, "el.pop": 2, "el.del_name": 2,
     "def.add_port": 3, "def.add_cable": 3, "def.add_child": 3, "lib.add_definition": 3,
     "nl.add_library": 3, "port.add_pin": 2, "cable.add_wire": 2,
-    "wire.connect_pin": 6, "wire.disconnect_pin": 3, "wire.disconnect_pins_from": 3,
+    "wire.connect_pin": 6, "wire.disconnect_pin": 3, "wire.disconnect_pins_from": 9,
     "inst.reference=": 6, "def.remove_ports_from": 2, "port.remove_pins_from": 2,
     "def.remove_children_from": 2, "def.remove_cables_from": 2, "cable.remove_wires_from": 2,
     "port.new": 2, "cable.new": 2, "inst.new": 2, "def.new": 2, "lib.new": 2, "proxy.new": 2,
@@ -176,7 +176,7 @@ class C14(Prop):
             ">=1 refused call in a universe with >=1 instanced definition; distinct = distinct case JSON")
     ASSUMPTIONS = ["arguments are of the documented type (TypeErrors from wrong types are out of scope)",
                    "proxy OuterPin objects are lookup keys, not netlist state"]
-    N = {"quick": 3200, "thorough": 40000}
+    N = {"quick": 8000, "thorough": 60000}
 
     def strategy(self, tier):
         cfg = gen_ir.Cfg(max_defs=4, max_children=3, max_width=2, max_libs=2, unnamed=True,
